@@ -7,7 +7,7 @@ mm.META.update(props.META)
 
 checks = []
 for pid in sorted(props.SPECS):
-    if pid not in mm.META:
+    if pid not in mm.META or pid not in mm.ACCEPTED:
         continue  # spec under construction: not claimed until its META entry exists
     meta = mm.META[pid]
     checks.append({
@@ -21,7 +21,7 @@ for pid in sorted(props.SPECS):
         "level_note": meta["note"],
         "technique": meta["technique"],
     })
-na = [{"property_id": p, "reason": r} for p, r in sorted(mm.NOT_APPLICABLE.items()) if not (p in props.SPECS and p in mm.META)]
+na = [{"property_id": p, "reason": r} for p, r in sorted(mm.NOT_APPLICABLE.items()) if not (p in props.SPECS and p in mm.META and p in mm.ACCEPTED)]
 m = {
     "version": 1,
     "setup_cmd": "/usr/bin/python3 bin/setup.py",
